@@ -1,8 +1,150 @@
 import RbV.Basic.Codec
-/-! Driver for property C14 (line protocol → verdict). -/
-namespace RbV.Drv.C14
-open RbV.Codec
+import RbV.Basic.FloatParse
+import RbV.Model.Hmm
+/-! Driver for property C14: HMM decoding and likelihoods.
 
-def verdict (_toks : List String) (_out : String) : String := "bad-op unimplemented"
+`c14 <kind> d:<d> init:<k,…> trans:<row;row;…> emit:<row;row;…> end:<k,…|x> obs:<o,…>
+     => vit:<s,…>:<ln p> fwd:<ln p> bwd:<ln p>`
+
+`kind` = `plain` (`discrete_emission::Model`) | `optnone` (`discrete_emission_opt_end::Model`, `end = None`) |
+`optend` (… with the end vector given).  All probabilities are `k/d`; the harness hands `k as f64 / d as f64` to
+`with_float`.  The driver evaluates the exact models of `RbV/Model/Hmm.lean` (numerators over the common
+denominator `d^(2T)` resp. `d^(2T+1)` with an end vector) and compares:
+
+* forward / backward: `exp(ln p)` within relative 1e-3 of the exact likelihood (proved = Σ over all paths);
+  exact likelihood 0 ⇒ the observation must be `-inf`;
+* Viterbi: the returned path must have the right length and states `< S`; its exact joint weight must equal
+  the exact maximum (`viterbiE`, proved = max over all paths) or be within 1e-9 relative of it; the reported
+  value must be within 1e-9 relative of the exact joint weight of the returned path (`-inf` iff that is 0);
+* likelihood ≥ Viterbi probability (with the 1e-3 slack of the fast exponential);
+* NaN, +inf, a panic or a hang are violations.
+
+For `optend` the code mirror `viterbi` (which ignores the end vector like the Rust code) is evaluated as well:
+an observation that breaks the property but agrees with that mirror is reported as
+`reject viterbi-ignores-end` (the recorded known finding); anything else is a different rejection. -/
+namespace RbV.Drv.C14
+open RbV.Codec RbV.FloatParse RbV.Hmm
+
+structure Case where
+  kind : String
+  d : Nat
+  S : Nat
+  M : Nat
+  init : List Nat
+  trans : List (List Nat)
+  emit : List (List Nat)
+  fin : Option (List Nat)
+  obs : List Nat
+
+def fieldVal (tok key : String) : Option String :=
+  match field tok with
+  | some (k, v) => if k = key then some v else none
+  | none => none
+
+def parseRows (s : String) : Option (List (List Nat)) := parseListNE parseNatList s ';'
+
+def parseCase (toks : List String) : Option Case :=
+  match toks with
+  | [kind, td, ti, tt, te, tf, to] => do
+    let d ← (fieldVal td "d") >>= parseNat
+    let init ← (fieldVal ti "init") >>= parseNatList
+    let trans ← (fieldVal tt "trans") >>= parseRows
+    let emit ← (fieldVal te "emit") >>= parseRows
+    let fs ← fieldVal tf "end"
+    let fin ← if fs = "x" then some none else (parseNatList fs).map some
+    let obs ← (fieldVal to "obs") >>= parseNatList
+    let S := init.length
+    let M := (emit.headD []).length
+    if d = 0 || S = 0 || M = 0 || obs.isEmpty then none
+    else if trans.length ≠ S || trans.any (·.length ≠ S) then none
+    else if emit.length ≠ S || emit.any (·.length ≠ M) then none
+    else if obs.any (· ≥ M) then none
+    else if (init ++ trans.flatten ++ emit.flatten).any (· > d) then none
+    else if !(kind = "plain" || kind = "optnone" || kind = "optend") then none
+    else if (kind = "optend") != fin.isSome then none
+    else match fin with
+      | some f => if f.length ≠ S || f.any (· > d) then none else some ⟨kind, d, S, M, init, trans, emit, fin, obs⟩
+      | none => some ⟨kind, d, S, M, init, trans, emit, fin, obs⟩
+  | _ => none
+
+def Case.model (c : Case) : Hmm :=
+  { S := c.S
+    init := fun s => c.init.getD s 0
+    trans := fun a b => (c.trans.getD a []).getD b 0
+    emit := fun s o => (c.emit.getD s []).getD o 0
+    fin := match c.fin with
+      | some f => fun s => f.getD s 0
+      | none => fun _ => 1 }
+
+/-- value of a numerator over `d^e` as a float -/
+def ratio (num d e : Nat) : Float := Float.ofNat num / Float.ofNat (d ^ e)
+
+/-- does the reported log value `ln` stand for the exact weight `num / d^e` (relative tolerance `tol`)? -/
+def valueOk (ln : Float) (num d e : Nat) (tol : Float) : Bool :=
+  if num = 0 then isNegInf ln else relClose (Float.exp ln) (ratio num d e) tol
+
+/-- is the exact weight `w` maximal (`= vmax`) up to 1e-9 relative? -/
+def nearMax (w vmax : Nat) : Bool :=
+  w = vmax || (w ≤ vmax && Float.ofNat (vmax - w) ≤ 1e-9 * Float.ofNat vmax)
+
+def parseObs (out : String) : Option (List Nat × Float × Float × Float) :=
+  match out.splitOn " " with
+  | [v, f, b] =>
+    match v.splitOn ":", f.splitOn ":", b.splitOn ":" with
+    | ["vit", p, lv], ["fwd", lf], ["bwd", lb] => do
+      let p ← parseNatList p
+      let lv ← parseFloat lv
+      let lf ← parseFloat lf
+      let lb ← parseFloat lb
+      pure (p, lv, lf, lb)
+    | _, _, _ => none
+  | _ => none
+
+def verdict (toks : List String) (out : String) : String :=
+  match parseCase toks with
+  | none => "bad-op parse"
+  | some c =>
+    if out.startsWith "PANIC" || out.startsWith "HANG" || out.startsWith "CRASH" then
+      "reject " ++ (out.replace " " "_") else
+    match parseObs out with
+    | none => "bad-op output"
+    | some (path, lv, lf, lb) =>
+      let m := c.model
+      let T := c.obs.length
+      let e := if c.fin.isSome then 2 * T + 1 else 2 * T
+      let lik := forward m c.obs
+      -- self-checks of the driver's models (theorems forward_eq_backward, backwardLit_eq): never expected to fire
+      if backward m c.obs ≠ lik || backwardLit m c.obs ≠ lik then "bad-op model-inconsistent" else
+      let vE := viterbiE m c.obs
+      if lv.isNaN || lf.isNaN || lb.isNaN then "reject nan" else
+      if isPosInf lv || isPosInf lf || isPosInf lb then "reject plus-inf" else
+      if !valueOk lf lik c.d e 1e-3 then
+        s!"reject forward-value exact={fshow (ratio lik c.d e)} got={fshow (Float.exp lf)}" else
+      if !valueOk lb lik c.d e 1e-3 then
+        s!"reject backward-value exact={fshow (ratio lik c.d e)} got={fshow (Float.exp lb)}" else
+      if path.length ≠ T || path.any (· ≥ c.S) then "reject viterbi-path-shape" else
+      let jp := joint m c.obs path
+      let pathOpt := nearMax jp vE.2
+      let valOk := valueOk lv jp c.d e 1e-9
+      let vm := viterbi m c.obs
+      if !(pathOpt && valOk) then
+        -- does the observation at least agree with the code mirror that ignores the end vector?
+        let m0 := m.noEnd
+        let jp0 := joint m0 c.obs path
+        if c.fin.isSome && nearMax jp0 vm.2 && valueOk lv jp0 c.d (2 * T) 1e-9 then
+          s!"reject viterbi-ignores-end path-joint={fshow (ratio jp c.d e)} max={fshow (ratio vE.2 c.d e)} reported={fshow (Float.exp lv)} likelihood={fshow (ratio lik c.d e)}"
+        else if !pathOpt then
+          s!"reject viterbi-path-not-optimal joint={fshow (ratio jp c.d e)} max={fshow (ratio vE.2 c.d e)}"
+        else s!"reject viterbi-value joint-of-path={fshow (ratio jp c.d e)} reported={fshow (Float.exp lv)}"
+      else
+      if !(Float.exp lv ≤ Float.exp lf * (1.0 + 2e-3)) then
+        s!"reject likelihood-below-viterbi vit={fshow (Float.exp lv)} fwd={fshow (Float.exp lf)}" else
+      let nt := T ≥ 2 && c.S ≥ 2 && lik > 0
+      let tags := (if nt then " nt" else "") ++ " " ++ c.kind ++ s!" S{c.S} T{if T ≥ 3 then "3+" else toString T}"
+        ++ (if lik = 0 then " impossible" else "")
+        ++ (if path ≠ vm.1 then " drift" else "")
+        ++ (if jp ≠ vE.2 then " near-tie" else "")
+        ++ (if c.d = 1 then " zero-one" else "")
+      "ok" ++ tags
 
 end RbV.Drv.C14
